@@ -38,7 +38,8 @@ class Opaque:
         return hash(self.text)
 
     def __bool__(self):
-        return True
+        # the truth value of an unfolded call is not known: a condition on it is undecided, never "taken"
+        raise NotConstant(self.text)
 
 
 class _F(Folder):
